@@ -28,6 +28,7 @@ import QEProofs.Lemmas.C04Ray
 import QEProofs.Lemmas.C04MinmaxTie
 import QEProofs.Lemmas.C04Mono
 import QEProofs.Lemmas.C04Term2
+import QEProofs.Lemmas.C04Buf
 import Mathlib.Algebra.Order.Field.Rat
 namespace QE.C04
 open QE QE.Pivot Finset
@@ -187,6 +188,23 @@ theorem basis_determines_solution (T T' : M K) (b : List ℕ) (L N : ℕ)
     (∀ i, i < L → T.get i N = T'.get i N) ∧ (∀ j, bsol T b L N j = bsol T' b L N j) ∧
     ((∀ z, RowsSat T z L → resid T z L = resid T' z L) → T.get L N = T'.get L N) :=
   basis_determines_vertex T T' b L N hs hs' hc hc' hsol
+
+omit [IsStrictOrderedRing K] in
+/-- **tableau_buffer_irrelevant.** `_initialize_tableau` run on a caller-supplied `tableau=` array of
+    the right shape — modelled as the code's sequence of partial writes, `initTableauBuf` —
+    produces the same tableau whatever the array contained before (garbage, NaN, an earlier
+    tableau): every cell is overwritten.  Everything downstream (`linprogSimplex`) is a function
+    of that tableau only, so work buffers cannot influence results; the harness checks the same
+    on the real code for `tableau=`, `basis=`, `x=`, `lambd=` in all combinations. -/
+theorem tableau_buffer_irrelevant (buf buf' : M K) (P : LP K)
+    (h : buf.nr = P.m + P.k + 1 ∧ buf.nc = P.n + P.m + (P.m + P.k) + 1)
+    (h' : buf'.nr = P.m + P.k + 1 ∧ buf'.nc = P.n + P.m + (P.m + P.k) + 1) :
+    ∀ i j, i < P.m + P.k + 1 → j < P.n + P.m + (P.m + P.k) + 1 →
+      (initTableauBuf buf P).get i j = (initTableauBuf buf' P).get i j ∧
+      (initTableauBuf buf P).get i j = (initTableau P).get i j := by
+  intro i j hi hj
+  rw [initTableauBuf_eq buf P h.1 h.2 i j hi hj, initTableauBuf_eq buf' P h'.1 h'.2 i j hi hj]
+  exact ⟨rfl, rfl⟩
 
 /-! ## `linprog_simplex` -/
 
